@@ -3,6 +3,7 @@
   the frame lemmas over the server model that C18 needs.
 -/
 import Sio.Model.Admin
+import Sio.Lemmas.Rooms
 namespace Sio.Admin
 open Sio.Rooms (Ns Sid Eio)
 
@@ -179,5 +180,402 @@ theorem scalarEq_arr_left (a : List J) (b : J) : scalarEq (.arr a) b = false := 
 
 theorem scalarEq_obj_left (a : List (Str × J)) (b : J) : scalarEq (.obj a) b = false := by
   cases b <;> simp [scalarEq]
+
+/-! ### the value domain: JSON-shaped values (unique dict keys, no NaN) -/
+
+/-- What `json.loads` produces and what a credentials dict is made of: every dict has pairwise
+    distinct keys (a Python dict cannot have anything else; the association-list representation
+    can) and no float is NaN (`nan != nan`, the one JSON-decodable value on which `==` is not
+    reflexive). -/
+inductive Dom : J → Prop
+  | null : Dom .null
+  | bool (b : Bool) : Dom (.bool b)
+  | int (i : Int) : Dom (.int i)
+  | flt (l : Str) (h : isNan l = false) : Dom (.flt l)
+  | str (s : Str) : Dom (.str s)
+  | bin (b : Bytes) : Dom (.bin b)
+  | arr (xs : List J) (h : ∀ x ∈ xs, Dom x) : Dom (.arr xs)
+  | obj (kvs : List (Str × J)) (nd : (keys kvs).Nodup) (h : ∀ p ∈ kvs, Dom p.2) : Dom (.obj kvs)
+
+theorem Dom.arr_inv {xs : List J} (h : Dom (.arr xs)) : ∀ x ∈ xs, Dom x := by
+  cases h; assumption
+
+theorem Dom.obj_nodup {kvs : List (Str × J)} (h : Dom (.obj kvs)) : (keys kvs).Nodup := by
+  cases h; assumption
+
+theorem Dom.obj_inv {kvs : List (Str × J)} (h : Dom (.obj kvs)) : ∀ p ∈ kvs, Dom p.2 := by
+  cases h; assumption
+
+theorem Dom.flt_inv {l : Str} (h : Dom (.flt l)) : isNan l = false := by
+  cases h; assumption
+
+/-! ### reflexivity -/
+
+mutual
+  theorem pyEq_refl : ∀ (a : J), Dom a → pyEq a a = true
+    | .null, _ => by simp [pyEq, scalarEq]
+    | .bool _, _ => by simp [pyEq, scalarEq]
+    | .int _, _ => by simp [pyEq, scalarEq]
+    | .str _, _ => by simp [pyEq, scalarEq]
+    | .bin _, _ => by simp [pyEq, scalarEq]
+    | .flt l, h => by simp [pyEq, scalarEq, fltEq, h.flt_inv]
+    | .arr xs, h => by rw [pyEq_arr_arr]; exact pyEqL_refl xs h.arr_inv
+    | .obj kvs, h => by
+      rw [pyEq_obj_obj]
+      have := pyEqO_refl kvs kvs (fun p hp => lookup_of_mem_nodup h.obj_nodup hp) h.obj_inv
+      simp [this]
+  theorem pyEqL_refl : ∀ (xs : List J), (∀ x ∈ xs, Dom x) → pyEqL xs xs = true
+    | [], _ => by simp [pyEqL]
+    | x :: xs, h => by
+      simp [pyEqL, pyEq_refl x (h x (by simp)), pyEqL_refl xs (fun y hy => h y (by simp [hy]))]
+  theorem pyEqO_refl : ∀ (rest b : List (Str × J)), (∀ p ∈ rest, lookup p.1 b = some p.2) →
+      (∀ p ∈ rest, Dom p.2) → pyEqO rest b = true
+    | [], _, _, _ => by simp [pyEqO]
+    | (k, v) :: rest, b, hl, hd => by
+      have h1 : lookup k b = some v := hl (k, v) (by simp)
+      simp [pyEqO, h1, pyEq_refl v (hd (k, v) (by simp)),
+        pyEqO_refl rest b (fun p hp => hl p (by simp [hp])) (fun p hp => hd p (by simp [hp]))]
+end
+
+/-! ### symmetry -/
+
+/-- one direction of dict symmetry, from symmetry on the values -/
+theorem pyEqO_flip {a b : List (Str × J)} (nda : (keys a).Nodup) (ndb : (keys b).Nodup)
+    (hl : a.length = b.length)
+    (sym : ∀ p ∈ a, ∀ q ∈ b, pyEq p.2 q.2 = true → pyEq q.2 p.2 = true)
+    (h : pyEqO a b = true) : pyEqO b a = true := by
+  rw [pyEqO_iff]
+  intro q hq
+  have hsub := pyEqO_keys_subset h
+  have hlen : (keys b).length ≤ (keys a).length := by simp [keys, hl]
+  have hk : q.1 ∈ keys a :=
+    nodup_subset_surj (keys a) (keys b) nda hsub hlen q.1 (List.mem_map_of_mem (f := (·.1)) hq)
+  have hs := lookup_isSome_iff.mpr hk
+  cases hv : lookup q.1 a with
+  | none => simp [hv] at hs
+  | some v =>
+    refine ⟨v, rfl, ?_⟩
+    have hmem : (q.1, v) ∈ a := lookup_some_mem hv
+    obtain ⟨w, hw, hvw⟩ := (pyEqO_iff b a).mp h (q.1, v) hmem
+    have : lookup q.1 b = some q.2 := lookup_of_mem_nodup ndb (by simpa using hq)
+    simp only [this, Option.some.injEq] at hw
+    subst hw
+    exact sym (q.1, v) hmem q hq hvw
+
+mutual
+  theorem pyEq_symm : ∀ (a b : J), Dom a → Dom b → pyEq a b = pyEq b a
+    | .arr xs, b, ha, hb => by
+      cases b with
+      | arr ys => rw [pyEq_arr_arr, pyEq_arr_arr]; exact pyEqL_symm xs ys ha.arr_inv hb.arr_inv
+      | obj kvs => simp [pyEq]
+      | null => simp [pyEq, scalarEq]
+      | bool _ => simp [pyEq, scalarEq]
+      | int _ => simp [pyEq, scalarEq]
+      | flt _ => simp [pyEq, scalarEq]
+      | str _ => simp [pyEq, scalarEq]
+      | bin _ => simp [pyEq, scalarEq]
+    | .obj kvs, b, ha, hb => by
+      cases b with
+      | obj kvs' =>
+        rw [pyEq_obj_obj, pyEq_obj_obj]
+        by_cases hl : kvs.length = kvs'.length
+        · have ih := pyEqO_symm kvs
+          have e : pyEqO kvs kvs' = pyEqO kvs' kvs := by
+            apply Bool.eq_iff_iff.mpr
+            constructor
+            · exact pyEqO_flip ha.obj_nodup hb.obj_nodup hl
+                (fun p hp q hq hpq => by
+                  rw [← ih p hp q.2 (ha.obj_inv p hp) (hb.obj_inv q hq)]; exact hpq)
+            · exact pyEqO_flip hb.obj_nodup ha.obj_nodup hl.symm
+                (fun q hq p hp hqp => by
+                  rw [ih p hp q.2 (ha.obj_inv p hp) (hb.obj_inv q hq)]; exact hqp)
+          simp [hl, e]
+        · have hl' : ¬ kvs'.length = kvs.length := fun e => hl e.symm
+          have b1 : (kvs.length == kvs'.length) = false := beq_eq_false_iff_ne.mpr hl
+          have b2 : (kvs'.length == kvs.length) = false := beq_eq_false_iff_ne.mpr hl'
+          rw [b1, b2]; rfl
+      | arr ys => simp [pyEq]
+      | null => simp [pyEq, scalarEq]
+      | bool _ => simp [pyEq, scalarEq]
+      | int _ => simp [pyEq, scalarEq]
+      | flt _ => simp [pyEq, scalarEq]
+      | str _ => simp [pyEq, scalarEq]
+      | bin _ => simp [pyEq, scalarEq]
+    | .null, b, _, _ => by
+      cases b <;> simp [pyEq, scalarEq]
+    | .bool x, b, _, _ => by
+      cases b <;> simp [pyEq, scalarEq_comm (.bool x)] <;> simp [scalarEq]
+    | .int x, b, _, _ => by
+      cases b <;> simp [pyEq, scalarEq_comm (.int x)] <;> simp [scalarEq]
+    | .flt x, b, _, _ => by
+      cases b <;> simp [pyEq, scalarEq_comm (.flt x)] <;> simp [scalarEq]
+    | .str x, b, _, _ => by
+      cases b <;> simp [pyEq, scalarEq_comm (.str x)] <;> simp [scalarEq]
+    | .bin x, b, _, _ => by
+      cases b <;> simp [pyEq, scalarEq_comm (.bin x)] <;> simp [scalarEq]
+  theorem pyEqL_symm : ∀ (xs ys : List J), (∀ x ∈ xs, Dom x) → (∀ y ∈ ys, Dom y) →
+      pyEqL xs ys = pyEqL ys xs
+    | [], [], _, _ => rfl
+    | [], _ :: _, _, _ => by simp [pyEqL]
+    | _ :: _, [], _, _ => by simp [pyEqL]
+    | x :: xs, y :: ys, hx, hy => by
+      simp only [pyEqL]
+      rw [pyEq_symm x y (hx x (by simp)) (hy y (by simp)),
+        pyEqL_symm xs ys (fun z hz => hx z (by simp [hz])) (fun z hz => hy z (by simp [hz]))]
+  theorem pyEqO_symm : ∀ (kvs : List (Str × J)) (p : Str × J), p ∈ kvs → ∀ (w : J),
+      Dom p.2 → Dom w → pyEq p.2 w = pyEq w p.2
+    | [], _, hp, _, _, _ => by simp at hp
+    | (k, v) :: rest, p, hp, w, h1, h2 => by
+      rcases List.mem_cons.mp hp with e | hp'
+      · subst e; exact pyEq_symm v w h1 h2
+      · exact pyEqO_symm rest p hp' w h1 h2
+end
+
+open Sio.Server
+
+/-- The application registered nothing on the admin namespace and no catch-all *namespace*
+    (`'*'`) handlers. -/
+structure AppClear (app : Registry) (adminNs : Ns) : Prop where
+  fnNs : app.fnNs adminNs = false
+  fn : ∀ e, app.fn adminNs e = false
+  cls : app.cls adminNs = false
+  starFn : app.fnNs star = false
+  starCls : app.cls star = false
+
+theorem registered_ro {mode : Str} {ro : Bool} (h : ro = true ∨ isDev mode = false) :
+    registered mode ro = ["connect".toList] := by
+  rcases h with h | h <;> simp [registered, h]
+
+theorem resolve_ro_notHandled {app : Registry} {adminNs : Ns} {mode : Str} {ro : Bool}
+    (hro : ro = true ∨ isDev mode = false) (hc : AppClear app adminNs) (hns : adminNs ≠ star)
+    {ev : Str} (hev : ev ≠ "connect".toList) (args : List J) :
+    resolve (instrumentReg app adminNs mode ro) adminNs (.str ev) args = .ok .notHandled := by
+  have hstar : (star == adminNs) = false := by
+    apply beq_eq_false_iff_ne.mpr; exact fun e => hns e.symm
+  have hsc : ¬ star = ['c', 'o', 'n', 'n', 'e', 'c', 't'] := by decide
+  have hev' : ¬ ev = ['c', 'o', 'n', 'n', 'e', 'c', 't'] := hev
+  simp [resolve, instrumentReg, registered_ro hro, hashable, inDict, evStr, hc.fn, hc.starFn,
+    hc.cls, hc.starCls, hev', hstar, hsc]
+
+section frame
+variable {app : Registry} {adminNs : Ns} {mode : Str} {ro : Bool} {cfg : Cfg}
+
+theorem runHandler_ro (hreg : cfg.reg = instrumentReg app adminNs mode ro)
+    (hro : ro = true ∨ isDev mode = false) (hc : AppClear app adminNs) (hns : adminNs ≠ star)
+    {ev : Str} (hev : ev ≠ "connect".toList) (s : Srv) (b : Bg) (hb : b.ns = adminNs)
+    (hf : b.first = .str ev) : runHandler cfg s b = (s, []) := by
+  simp [runHandler, hreg, hb, hf, resolve_ro_notHandled hro hc hns hev]
+
+theorem handleEvent_ro_sync (hreg : cfg.reg = instrumentReg app adminNs mode ro)
+    (hro : ro = true ∨ isDev mode = false) (hc : AppClear app adminNs) (hns : adminNs ≠ star)
+    {ev : Str} (hev : ev ≠ "connect".toList) (hsync : cfg.asyncHandlers = false)
+    (s : Srv) (t : Eio) (id : Option Nat) {data : Option J} {rest : List J}
+    (hd : splitEvent data = .ok (.str ev, rest)) :
+    handleEvent cfg s t (some adminNs) id data = (s, []) := by
+  simp only [handleEvent, hd, Option.getD_some]
+  split
+  · rfl
+  · split
+    · rfl
+    · simp only [hsync, Bool.false_eq_true, if_false]
+      exact runHandler_ro hreg hro hc hns hev s _ rfl rfl
+
+theorem handleEvent_ro_async (hasync : cfg.asyncHandlers = true)
+    (s : Srv) (t : Eio) (id : Option Nat) {data : Option J} {ev : Str} {rest : List J}
+    (hd : splitEvent data = .ok (.str ev, rest)) :
+    handleEvent cfg s t (some adminNs) id data = (s, []) ∨
+    ∃ sid, handleEvent cfg s t (some adminNs) id data =
+      ({ s with bg := s.bg ++ [⟨sid, t, .str ev, rest, adminNs, id⟩] }, []) := by
+  simp only [handleEvent, hd, Option.getD_some]
+  split
+  · exact Or.inl rfl
+  · next sid _ =>
+    split
+    · exact Or.inl rfl
+    · exact Or.inr ⟨sid, rfl⟩
+
+/-- The same through `Sio.Server.step`: an EVENT frame on the admin namespace. -/
+theorem step_frame_ro_sync (dec : Str → Except Err (Packet × Nat))
+    (hreg : cfg.reg = instrumentReg app adminNs mode ro)
+    (hro : ro = true ∨ isDev mode = false) (hc : AppClear app adminNs) (hns : adminNs ≠ star)
+    {ev : Str} (hev : ev ≠ "connect".toList) (hsync : cfg.asyncHandlers = false)
+    (s : Srv) (t : Eio) (c : Char) (cs : Str) {p : Packet} {n : Nat} {rest : List J}
+    (hbuf : s.binbuf.find? (fun e => e.1 = t) = none)
+    (hdec : dec (c :: cs) = .ok (p, n)) (hty : p.type = EVENT) (hnsp : p.nsp = some adminNs)
+    (hd : splitEvent p.data = .ok (.str ev, rest)) :
+    step dec cfg s (.frame t (.str (c :: cs))) = (s, []) := by
+  have hne : ¬ EVENT = CONNECT := by decide
+  have hne2 : ¬ EVENT = DISCONNECT := by decide
+  simp only [step, handleFrame, hbuf, hdec, dispatchPacket, hty, hne, hne2, if_false, if_true, hnsp]
+  exact handleEvent_ro_sync hreg hro hc hns hev hsync s t p.id hd
+
+/-- `async_handlers=True`: the frame only queues the handler; at `settle` it turns out to be
+    nobody's.  State and outputs of the two steps together: nothing. -/
+theorem run_frame_settle_ro_async (dec : Str → Except Err (Packet × Nat))
+    (hreg : cfg.reg = instrumentReg app adminNs mode ro)
+    (hro : ro = true ∨ isDev mode = false) (hc : AppClear app adminNs) (hns : adminNs ≠ star)
+    {ev : Str} (hev : ev ≠ "connect".toList) (hasync : cfg.asyncHandlers = true)
+    (s : Srv) (hbg : s.bg = []) (t : Eio) (c : Char) (cs : Str) {p : Packet} {n : Nat}
+    {rest : List J}
+    (hbuf : s.binbuf.find? (fun e => e.1 = t) = none)
+    (hdec : dec (c :: cs) = .ok (p, n)) (hty : p.type = EVENT) (hnsp : p.nsp = some adminNs)
+    (hd : splitEvent p.data = .ok (.str ev, rest)) :
+    run dec cfg s [.frame t (.str (c :: cs)), .settle] = (s, []) := by
+  have hne : ¬ EVENT = CONNECT := by decide
+  have hne2 : ¬ EVENT = DISCONNECT := by decide
+  have hs0 : { s with bg := [] } = s := by cases s; simp_all
+  have hframe : step dec cfg s (.frame t (.str (c :: cs))) =
+      handleEvent cfg s t (some adminNs) p.id p.data := by
+    simp only [step, handleFrame, hbuf, hdec, dispatchPacket, hty, hne, hne2, if_false, if_true, hnsp]
+  have hrun : ∀ a b, run dec cfg s [a, b] =
+      ((step dec cfg (step dec cfg s a).1 b).1,
+       (step dec cfg s a).2 ++ ((step dec cfg (step dec cfg s a).1 b).2 ++ [])) := by
+    intro a b; simp only [run]
+  rw [hrun, hframe]
+  rcases handleEvent_ro_async (adminNs := adminNs) hasync s t p.id hd with h | ⟨sid, h⟩
+  · rw [h]
+    simp only [step, hbg, step.drain, hs0, List.append_nil]
+  · rw [h]
+    simp only [step, hbg, List.nil_append, step.drain, hs0, List.append_nil]
+    rw [runHandler_ro hreg hro hc hns hev s _ rfl rfl]
+end frame
+
+/-! ### the connect handler on the admin namespace -/
+
+theorem resolve_connect (app : Registry) (adminNs : Ns) (mode : Str) (ro : Bool) (args : List J) :
+    resolve (instrumentReg app adminNs mode ro) adminNs (.str "connect".toList) args =
+      .ok (.fn (.fn adminNs "connect".toList) args) := by
+  simp [resolve, instrumentReg, registered, hashable, inDict, evStr]
+
+theorem disconnect_connect {r r' : Rooms.St} {ns : Ns} {t : Eio} {sid : Sid}
+    (fresh : ∀ e ∈ r, e.sid ≠ sid) (h : Rooms.connect r ns t sid = some r') :
+    Rooms.disconnect r' ns sid = r := by
+  have hf : r.filter (fun e => !decide (e.ns = ns ∧ e.sid = sid)) = r :=
+    List.filter_eq_self.mpr (fun e he => by simp [fresh e he])
+  simp only [Rooms.connect] at h
+  split at h
+  · simp at h
+  · simp only [Option.some.injEq] at h
+    subst h
+    simp only [Rooms.disconnect, Rooms.add]
+    split <;> split <;> simp [List.filter_append] <;>
+      exact fun a ha => Or.inr (fresh a ha)
+
+section connect
+variable {app : Registry} {adminNs : Ns} {mode : Str} {ro : Bool} {cfg : Cfg}
+
+theorem handleConnect_refused (hreg : cfg.reg = instrumentReg app adminNs mode ro)
+    (s : Srv) (t : Eio) (payload : Option J) (acfg : AuthCfg)
+    (hscript : cfg.script.onConnect s.nConn = connectOutcome acfg payload)
+    (hrefuse : admitsWire acfg payload = false)
+    (henv : s.environ.contains t = true)
+    (hfresh : ∀ e ∈ s.rooms, e.sid ≠ sidName s.nextSid) :
+    (handleConnect cfg s t (some adminNs) payload).1.rooms = s.rooms := by
+  simp only [handleConnect, Option.getD_some]
+  cases hc : (if isServed cfg adminNs = true then Rooms.connect s.rooms adminNs t (sidName s.nextSid) else none) with
+  | none => simp
+  | some rooms' =>
+    have hconn : Rooms.connect s.rooms adminNs t (sidName s.nextSid) = some rooms' := by
+      split at hc
+      · exact hc
+      · simp at hc
+    have hback := disconnect_connect hfresh hconn
+    simp only [henv, hreg, resolve_connect, hscript, connectOutcome, hrefuse]
+    simp [mgrDisconnect, hback]
+    split <;> simp
+
+theorem mem_sendTo {s : Srv} {t : Eio} {p : Packet} {o : Out} (h : o ∈ sendTo s (some t) p) :
+    o = .send t p := by
+  simp only [sendTo] at h
+  split at h <;> simp at h
+  exact h
+
+/-- A refused attempt talks to nobody but the candidate. -/
+theorem handleConnect_refused_outs (hreg : cfg.reg = instrumentReg app adminNs mode ro)
+    (s : Srv) (t : Eio) (payload : Option J) (acfg : AuthCfg)
+    (hscript : cfg.script.onConnect s.nConn = connectOutcome acfg payload)
+    (hrefuse : admitsWire acfg payload = false)
+    (henv : s.environ.contains t = true) :
+    ∀ o ∈ (handleConnect cfg s t (some adminNs) payload).2,
+      (∃ p, o = .send t p) ∨ (∃ a, o = .invoke (.fn adminNs "connect".toList) a) := by
+  intro o ho
+  simp only [handleConnect, Option.getD_some] at ho
+  cases hc : (if isServed cfg adminNs = true then Rooms.connect s.rooms adminNs t (sidName s.nextSid) else none) with
+  | none =>
+    simp only [hc] at ho
+    exact Or.inl ⟨_, mem_sendTo ho⟩
+  | some rooms' =>
+    simp only [hc, henv, hreg, resolve_connect, hscript, connectOutcome, hrefuse] at ho
+    simp at ho
+    cases hac : cfg.alwaysConnect <;> simp [hac] at ho
+    · rcases ho with ho | ho
+      · exact Or.inr ⟨_, ho⟩
+      · exact Or.inl ⟨_, mem_sendTo ho⟩
+    · rcases ho with ho | ho | ho
+      · exact Or.inl ⟨_, mem_sendTo ho⟩
+      · exact Or.inr ⟨_, ho⟩
+      · exact Or.inl ⟨_, mem_sendTo ho⟩
+
+/-- Contrast: an admitted attempt on a transport that has no admin session yet ends as a member
+    of the admin namespace (so `refused_no_membership` is not true for trivial reasons). -/
+theorem handleConnect_admitted (hreg : cfg.reg = instrumentReg app adminNs mode ro)
+    (s : Srv) (t : Eio) (payload : Option J) (acfg : AuthCfg)
+    (hscript : cfg.script.onConnect s.nConn = connectOutcome acfg payload)
+    (hadmit : admitsWire acfg payload = true)
+    (henv : s.environ.contains t = true)
+    (hnew : Rooms.sidOf s.rooms adminNs t = none) :
+    Rooms.isMember (handleConnect cfg s t (some adminNs) payload).1.rooms adminNs none
+      (sidName s.nextSid) = true := by
+  have hserved : isServed cfg adminNs = true := by
+    simp [isServed, hreg, instrumentReg]
+  simp only [handleConnect, Option.getD_some, hserved, if_true, Rooms.connect, hnew, henv, hreg,
+    resolve_connect, hscript, connectOutcome, hadmit]
+  have key : Rooms.isMember
+      (Rooms.add (Rooms.add s.rooms ⟨adminNs, none, sidName s.nextSid, t⟩)
+        ⟨adminNs, some (sidName s.nextSid), sidName s.nextSid, t⟩) adminNs none (sidName s.nextSid) = true :=
+    Rooms.isMember_iff.mpr ⟨t, Rooms.mem_add.mpr (Or.inl (Rooms.mem_add.mpr (Or.inr rfl)))⟩
+  simp [key]
+end connect
+
+/-! ### admin reports are invisible to the application (model level) -/
+
+def isAdminOut (adminNs : Ns) : Out → Bool
+  | .send _ p => p.nsp == some adminNs
+  | _ => false
+
+/-- what application clients and the application itself can observe of a list of outputs -/
+def observeApp (adminNs : Ns) (outs : List Out) : List Out :=
+  outs.filter (fun o => !isAdminOut adminNs o)
+
+theorem mkOut_nsp (type : Nat) (ns : Ns) (id : Option Nat) (data : List J) :
+    (mkOut type ns id data).nsp = some ns := by
+  simp only [mkOut, mkPacket]
+  split
+  · next h =>
+    split at h
+    · split at h
+      · simp at h; subst h; rfl
+      · split at h
+        · simp at h; subst h; rfl
+        · simp at h
+    · simp at h; subst h; rfl
+  · rfl
+
+/-- `sio.emit(event, data, namespace=admin_namespace)` without a callback — everything the
+    reporting wrappers and the statistics task do — leaves the server state alone and produces
+    only packets of the admin namespace. -/
+theorem report_invisible (s : Srv) (ev : Str) (d : Data) (adminNs : Ns) (to : Rooms.Target)
+    (skip : List Sid) :
+    (emit s ev d adminNs to skip none).1 = s ∧
+    observeApp adminNs (emit s ev d adminNs to skip none).2 = [] := by
+  simp only [emit]
+  split
+  · simp [observeApp]
+  · refine ⟨rfl, ?_⟩
+    simp only [observeApp, List.filter_eq_nil_iff, List.mem_flatMap]
+    rintro o ⟨r, _, ho⟩
+    have := mem_sendTo ho
+    subst this
+    simp [isAdminOut, mkOut_nsp]
 
 end Sio.Admin
